@@ -448,20 +448,23 @@ def strict_lp(wire, with_tl=True):
 
 
 def make_lp(fragment=None, pit_token=None, nack_reason=None, nack=False, headers=(), frag_index=None,
-            frag_count=None):
-    """headers: extra (type, value-bytes) pairs placed before the fragment, in the order given."""
-    body = b''
+            frag_count=None, ordered=True):
+    """headers: extra (type, value-bytes) pairs.  ordered=True (NDNLPv2: header fields appear in increasing type order) merges
+    them with the named fields by type number; ordered=False keeps the named fields first and the extra ones as given."""
+    fields = []
     if frag_index is not None:
-        body += enc_tlv(L['FRAG_INDEX'], enc_nni(frag_index))
+        fields.append((L['FRAG_INDEX'], enc_nni(frag_index)))
     if frag_count is not None:
-        body += enc_tlv(L['FRAG_COUNT'], enc_nni(frag_count))
+        fields.append((L['FRAG_COUNT'], enc_nni(frag_count)))
     if pit_token is not None:
-        body += enc_tlv(L['PIT_TOKEN'], pit_token)
+        fields.append((L['PIT_TOKEN'], pit_token))
     if nack or nack_reason is not None:
         inner = enc_tlv(L['NACK_REASON'], enc_nni(nack_reason)) if nack_reason is not None else b''
-        body += enc_tlv(L['NACK'], inner)
-    for t, v in headers:
-        body += enc_tlv(t, v)
+        fields.append((L['NACK'], inner))
+    fields += list(headers)
+    if ordered:
+        fields = [f for _, f in sorted(enumerate(fields), key=lambda x: (x[1][0], x[0]))]
+    body = b''.join(enc_tlv(t, v) for t, v in fields)
     if fragment is not None:
         body += enc_tlv(L['FRAGMENT'], fragment)
     return enc_tlv(L['LP_PACKET'], body)
